@@ -123,14 +123,16 @@ Section StaticDag.
   Proof. intros proj H ws w. apply restart_equiv_scratch_static_dag. exact H. Qed.
 End StaticDag.
 
-(* What the two static-DAG theorems leave out of C01: (1) dynamic workflows: steps, static
-   declarations and globs created by plan steps, sub-plans, so that the project itself changes
-   during and between builds; plan edits that drop, re-add or redefine steps and the recycling
-   of detached nodes (where D4 and D9 live); (2) amended inputs, outputs and variables, deferred
+(* What the two static-DAG theorems leave out of C01: (1) dynamic workflows.  Plan edits that add,
+   drop or redefine steps BETWEEN builds, with recycling, are covered further down
+   (C01_plan_edits_equiv_scratch_partial); still out: the plan being itself a step that runs
+   DURING the build (steps, static declarations and globs created while other steps run,
+   sub-plans), detached nodes that survive a skipped cleanup and are recycled later (F5 = D29),
+   the stored hash kept by a partial recycle; (2) amended inputs, outputs and variables, deferred
    steps; (3) optional steps, targets and the cleanup pass; (4) failing steps, draining,
    interrupted builds; (5) concurrent schedules (the engine processes one topological order;
-   C02); (6) the stored value a variable is compared with at startup (finding F6: the code
-   compares with the value recorded at declaration time, the model with the last one seen). *)
+   C02); (6) the stored value a variable is compared with at startup (F6 = D30: the code compares
+   with the value recorded at declaration time, the model with the last one seen). *)
 
 (* The hypotheses are satisfiable: a diamond  1 -> A -> 10 -> {B, C} -> {11, 12} -> D -> 13
    with a second source 2 read by C and a variable 7 tracked by B. *)
@@ -168,4 +170,69 @@ Example C01_diamond_skip :
   map (stt y1) [100; 101; 102; 103] = [Succeeded; Succeeded; Pending; Pending] /\
   build_log sum_run diamond diamond y2e = [(102, false); (103, false)] /\
   map (fs (build sum_run diamond y2e)) [10; 11; 12; 13] = map (fs y0) [10; 11; 12; 13].
+Proof. vm_compute. repeat split; reflexivity. Qed.
+
+(* ------------------------------------------------------------------------------------------ *)
+(* Beyond the static DAG: plan edits that add, drop or redefine steps, with recycling          *)
+(* ------------------------------------------------------------------------------------------ *)
+Section PlanEdits.
+  Variable run : N -> list (option N) -> list (option N) -> N -> N.
+
+  (* For every history of (project, world) pairs -- between two builds the plan may add, drop and
+     redefine steps (identical definitions are fully recycled with state and trace, everything
+     else starts PENDING), and sources, static declarations (a world only shows declared paths)
+     and tracked variables may change arbitrarily -- building the last pair on top of what the
+     earlier builds left is equivalent to building it on nothing.  The engine is the one of
+     model/Engine.v with the rescan [resync], whose pending propagation treats a lost
+     declaration like any other change of an input. *)
+  Theorem C01_plan_edits_equiv_scratch_partial :
+    forall (hist : list (project * world)) (P : project) (w : world),
+      (forall pw, In pw hist -> wf (fst pw) = true) -> wf P = true ->
+      same_result P (snd (run_dyn run (hist ++ [(P, w)]))) (build_world run P w empty_sys).
+  Proof. exact (dyn_equiv_scratch run). Qed.
+
+  (* the step that makes it work: pending propagation repairs the closure after a retargeting *)
+  Theorem C01_rescan_repairs_recycled_state :
+    forall (P P' : project) (w : world) (y : sys),
+      wf P' = true -> Pre run P y ->
+      Pre run P' (rebuild_dyn run P y P' w) /\ Finished run P' (rebuild_dyn run P y P' w).
+  Proof.
+    intros P P' w y H HP. destruct (rebuild_dyn_inv run P P' w y (wf_WF P' H) HP) as (H1 & H2 & _).
+    split; assumption.
+  Qed.
+End PlanEdits.
+
+(* D4 at this level: with the rescan as the code performs it ([resync_code]: a path whose
+   declaration was dropped is not a change) the statement is false.  Project: cat reads 10 and
+   writes 20; 10 is on disk all the time; the first plan declares it static, the second does not. *)
+Definition d4_proj : project := [mkStep 1 [10] [] [20]].
+Definition d4_disk : N -> option N := fun p => if p =? 10 then Some 5 else None.
+Definition d4_w1 : world := (visible [10] d4_disk, fun _ => None).
+Definition d4_w2 : world := (visible [] d4_disk, fun _ => None).
+
+Theorem C01_D4_engine_refuted :
+  let hist := [(d4_proj, d4_w1); (d4_proj, d4_w2)] in
+  let scr := build_world mix_run d4_proj d4_w2 empty_sys in
+  stt (snd (run_dyn_code mix_run hist)) 1 = Succeeded /\ stt scr 1 = Pending /\
+  same_result_b d4_proj (snd (run_dyn_code mix_run hist)) scr = false /\
+  same_result_b d4_proj (snd (run_dyn mix_run hist)) scr = true.
+Proof. vm_compute. repeat split; reflexivity. Qed.
+
+(* drop a step, change its input, re-add it unchanged; redefine a producer: the hypotheses of
+   C01_plan_edits_equiv_scratch_partial are satisfiable and the recycled steps do get skipped *)
+Example C01_plan_edit_history :
+  let A := mkStep 100 [1] [] [10] in
+  let B := mkStep 101 [10] [] [11] in
+  let A' := mkStep 100 [1; 2] [] [10] in
+  let w := (src0, env0) in
+  let y1 := snd (run_dyn sum_run [([A; B], w)]) in
+  let r2 := retarget [A; B] [A] y1 in
+  let y2 := rebuild_dyn sum_run [A; B] y1 [A] w in
+  let r3 := resync [A; B] (retarget [A] [A; B] y2) w in
+  let y3 := rebuild_dyn sum_run [A] y2 [A; B] w in
+  let r4 := resync [A'; B] (retarget [A; B] [A'; B] y3) w in
+  wf [A; B] = true /\ wf [A'; B] = true /\
+  build_log sum_run [A] [A] (resync [A] r2 w) = [] /\                      (* A fully recycled *)
+  build_log sum_run [A; B] [A; B] r3 = [(101, true)] /\                   (* B is new again  *)
+  build_log sum_run [A'; B] [A'; B] r4 = [(100, true); (101, true)].      (* A redefined      *)
 Proof. vm_compute. repeat split; reflexivity. Qed.
